@@ -169,7 +169,13 @@ impl RxMode {
                 // Since both sx126x and sx127x have a preamble-based timeout, we translate
                 // the additional millisecond delay into symbols and add it to the amount of preamble symbols.
                 const PREAMBLE_SYMBOLS: u16 = 13; // 12.25
-                let num_symbols = PREAMBLE_SYMBOLS + bb.delay_in_symbols(ms);
+                // round the extra time UP to whole symbols: with floor() the window could close up to a
+                // quarter symbol before 12.25 preamble symbols + ms have elapsed
+                let mut extra = bb.delay_in_symbols(ms);
+                if bb.symbols_to_ms(extra as u32) < ms {
+                    extra += 1;
+                }
+                let num_symbols = PREAMBLE_SYMBOLS + extra;
                 RxMode::Single(num_symbols)
             }
         }
